@@ -25,8 +25,8 @@ from . import common
 ID = "C11"
 LEVEL = "exploration"
 TIERS = {
-    "quick": {"runs": 2500, "wall": 70, "run_timeout": 120, "shrink_s": 40},
-    "thorough": {"runs": 120000, "wall": 1100, "run_timeout": 240, "shrink_s": 120},
+    "quick": {"runs": 2500, "wall": 70, "run_timeout": 240, "shrink_s": 40},
+    "thorough": {"runs": 120000, "wall": 1100, "run_timeout": 400, "shrink_s": 120},
 }
 RULE = ("case = seeded continuum (2..5 annotators, grid/jitter/nested/staircase/identical/sparse families incl. empty annotators, "
         "exact ties) x dissimilarity (positional; combined with absolute/levenshtein/ordinal/numerical, alpha,beta in {0,.5,1,3}, "
